@@ -5,6 +5,8 @@ package main
 // cfg line (`tag:<name>`), so that a finding can be fingerprinted by the kind of damage.
 
 import (
+	"encoding/json"
+	"slices"
 	"strings"
 
 	"google.golang.org/protobuf/proto"
@@ -16,39 +18,167 @@ import (
 
 var longName = strings.Repeat("n", 300)
 
-func (g *gen) mutate() {
+// mutationCatalogue: every (kind, index) of the mutation switches below. The k-th malformed case of a run is FORCED to the
+// k-th entry (cyclically), so that every mutation - and with it every known (rule, mutation) pair - is reached in every
+// run regardless of the seed; if it does not apply to any object of the case, a random mutation is taken.
+var mutationCatalogue = func() [][2]any {
+	var out [][2]any
+	for _, kn := range []struct {
+		kind string
+		n    int
+	}{{"VirtualService", 27}, {"DestinationRule", 10}, {"ServiceEntry", 16}, {"Gateway", 14}, {"Sidecar", 9}, {"EnvoyFilter", 6},
+		{"PeerAuthentication", 1}, {"WorkloadEntry", 3}} {
+		for i := 0; i < kn.n; i++ {
+			out = append(out, [2]any{kn.kind, i})
+		}
+	}
+	return out
+}()
+
+// priorityMutations: catalogue indexes of the mutations on numeric bounds of validation (route weights: negative / sum
+// above uint32 / all zero; ring size; connection pool numbers; port range). A slip of such a bound in validation admits
+// the object, and the generated configuration is then rejected by Envoy; they are tried more often than once per cycle.
+var priorityMutations = func() []int {
+	var out []int
+	for _, want := range [][2]any{{"VirtualService", 6}, {"VirtualService", 4}, {"VirtualService", 5}, {"DestinationRule", 5},
+		{"DestinationRule", 7}, {"ServiceEntry", 2}} {
+		for i, e := range mutationCatalogue {
+			if e == want {
+				out = append(out, i)
+			}
+		}
+	}
+	return out
+}()
+
+func (g *gen) mutIdx(n int) int {
+	if g.force >= 0 && g.force < n {
+		return g.force
+	}
+	return g.r.Intn(n)
+}
+
+func (g *gen) tryMutate(c *cfgDesc) bool {
+	if len(c.Muts) > 0 || (c.Kind == "WorkloadEntry" && c.Name == "waypoint-a") {
+		return false
+	}
+	cc, err := c.toConfig()
+	if err != nil {
+		return false
+	}
+	pm := cc.Spec.(proto.Message)
+	tag, _ := g.mutateSpec(c, pm)
+	if tag == "" {
+		return false
+	}
+	// NOTE: nil ELEMENTS of repeated message fields are not generated: no decoding path of the control
+	// plane (Kubernetes JSON/YAML, MCP protobuf, files) can produce one - they arrive as empty messages,
+	// which is what the "-nil-" mutations below leave after the JSON round trip.
+	c.JSON = specJSON(pm)
+	c.Muts = append(c.Muts, "tag:"+tag)
+	return true
+}
+
+// mutate damages exactly ONE object of the case, in one way: a finding is then attributed to that mutation.
+func (g *gen) mutate(forced int) {
+	if forced >= 0 {
+		e := mutationCatalogue[forced%len(mutationCatalogue)]
+		kind := e[0].(string)
+		have := false
+		for _, c := range g.cfgs {
+			have = have || c.Kind == kind
+		}
+		if !have {
+			switch kind {
+			case "VirtualService":
+				g.virtualService()
+			case "DestinationRule":
+				g.destinationRule()
+			case "ServiceEntry":
+				g.serviceEntry()
+			case "Gateway":
+				g.gateway()
+			case "Sidecar":
+				g.sidecar()
+			case "EnvoyFilter":
+				g.envoyFilter()
+			case "PeerAuthentication":
+				g.peerAuthentication()
+			case "WorkloadEntry":
+				g.workloadEntry()
+			}
+		}
+		g.force = e[1].(int)
+		// objects bound to an existing gateway first (the gateway path has its own handling of hosts and routes; every
+		// other cycle of the catalogue), then the mesh-bound ones, last the ones bound to a gateway that does not exist
+		// (no generator reads them: damage there shows nothing)
+		bound := func(c *cfgDesc) int {
+			var spec struct {
+				Gateways []string `json:"gateways"`
+				ExportTo []string `json:"exportTo"`
+			}
+			if json.Unmarshal([]byte(c.JSON), &spec) != nil {
+				return 1
+			}
+			if c.Kind == "VirtualService" && len(spec.ExportTo) > 0 && !slices.Contains(spec.ExportTo, "*") {
+				return 2 // visible to one namespace only: most proxies of the case do not see it
+			}
+			if len(spec.Gateways) == 0 {
+				return 1
+			}
+			rank := 2
+			for _, gw := range spec.Gateways {
+				if !strings.Contains(gw, "/") {
+					gw = c.Ns + "/" + gw
+				}
+				switch {
+				case strings.HasSuffix(gw, "/mesh"):
+					if rank == 2 {
+						rank = 1
+					}
+				case slices.Contains(g.gateways, gw):
+					rank = 0
+				}
+			}
+			return rank
+		}
+		if kind == "VirtualService" {
+			live := false
+			for i := range g.cfgs {
+				live = live || (g.cfgs[i].Kind == kind && bound(&g.cfgs[i]) < 2)
+			}
+			if !live {
+				g.virtualService()
+			}
+		}
+		order := []int{0, 1, 2}
+		if forced/len(mutationCatalogue)%2 == 1 {
+			order = []int{1, 0, 2}
+		}
+		for _, pass := range order {
+			for i := range g.cfgs {
+				if g.cfgs[i].Kind == kind && bound(&g.cfgs[i]) == pass && g.tryMutate(&g.cfgs[i]) {
+					g.force = -1
+					return
+				}
+			}
+		}
+		g.force = -1
+	}
 	if len(g.cfgs) == 0 {
 		return
 	}
-	// exactly ONE object of the case is damaged, in one way: a finding is then attributed to that mutation
 	for try := 0; try < 40; try++ {
-		idx := g.r.Intn(len(g.cfgs))
-		c := &g.cfgs[idx]
-		if c.Kind == "WorkloadEntry" && c.Name == "waypoint-a" {
-			continue
+		if g.tryMutate(&g.cfgs[g.r.Intn(len(g.cfgs))]) {
+			return
 		}
-		cc, err := c.toConfig()
-		if err != nil {
-			continue
-		}
-		pm := cc.Spec.(proto.Message)
-		tag, _ := g.mutateSpec(c, pm)
-		if tag == "" {
-			continue
-		}
-		// NOTE: nil ELEMENTS of repeated message fields are not generated: no decoding path of the control
-		// plane (Kubernetes JSON/YAML, MCP protobuf, files) can produce one - they arrive as empty messages,
-		// which is what the "-nil-" mutations below leave after the JSON round trip.
-		c.JSON = specJSON(pm)
-		c.Muts = append(c.Muts, "tag:"+tag)
-		return
 	}
 }
 
 // mutateSpec damages the object in place; returns the mutation tag and, for nil-element mutations,
 // the Go field path of the repeated-field element to nil after decoding.
 func (g *gen) mutateSpec(c *cfgDesc, pm proto.Message) (string, string) {
-	if g.ch(1, 25) {
+	if g.force < 0 && g.ch(1, 25) {
 		c.Name = longName
 		return "oversize-name", ""
 	}
@@ -69,7 +199,7 @@ func (g *gen) mutateSpec(c *cfgDesc, pm proto.Message) (string, string) {
 		s.PortLevelMtls = map[uint32]*security.PeerAuthentication_MutualTLS{0: {Mode: security.PeerAuthentication_MutualTLS_STRICT}, 70000: nil}
 		return "pa-port-range", ""
 	case *networking.WorkloadEntry:
-		switch g.r.Intn(3) {
+		switch g.mutIdx(3) {
 		case 0:
 			s.Address = ""
 			return "we-empty-address", ""
@@ -92,7 +222,7 @@ func (g *gen) mutVS(vs *networking.VirtualService) (string, string) {
 		}
 		return nil
 	}
-	switch g.r.Intn(26) {
+	switch g.mutIdx(27) {
 	case 0:
 		vs.Hosts = nil
 		return "vs-empty-hosts", ""
@@ -122,7 +252,19 @@ func (g *gen) mutVS(vs *networking.VirtualService) (string, string) {
 			return "vs-huge-weights", ""
 		}
 	case 6:
-		if h := firstRoute(); h != nil && len(h.Route) > 1 {
+		h := firstRoute()
+		if h == nil && len(vs.Hosts) > 0 {
+			// no http route with destinations yet: the damage replaces / adds one towards the VirtualService's own host
+			dst := &networking.HTTPRouteDestination{Destination: &networking.Destination{Host: strings.TrimPrefix(vs.Hosts[0], "*.")}}
+			h = &networking.HTTPRoute{Route: []*networking.HTTPRouteDestination{dst}}
+			vs.Http = append([]*networking.HTTPRoute{h}, vs.Http...)
+		}
+		if h != nil {
+			// exactly TWO destinations, both of weight 0 (the smallest list the "total destination weight = 0" rule covers)
+			if len(h.Route) < 2 {
+				h.Route = append(h.Route, proto.Clone(h.Route[0]).(*networking.HTTPRouteDestination))
+			}
+			h.Route = h.Route[:2]
 			for _, d := range h.Route {
 				d.Weight = 0
 			}
@@ -219,6 +361,16 @@ func (g *gen) mutVS(vs *networking.VirtualService) (string, string) {
 			vs.Http[0].CorsPolicy = &networking.CorsPolicy{AllowOrigins: []*networking.StringMatch{nil, {MatchType: &networking.StringMatch_Regex{Regex: "[("}}}, MaxAge: durationpb.New(-1e9)}
 			return "vs-bad-cors", "Http.0.CorsPolicy.AllowOrigins.0"
 		}
+	case 26:
+		// mixed-case hosts (rejected by validation: DNS labels are lower-case), also towards gateways
+		for i, h := range vs.Hosts {
+			vs.Hosts[i] = strings.ToUpper(h[:1]) + h[1:]
+			if len(h) > 3 {
+				vs.Hosts[i] = h[:2] + strings.ToUpper(h[2:3]) + h[3:]
+			}
+		}
+		vs.Hosts = append(vs.Hosts, strings.ToLower(vs.Hosts[0]))
+		return "vs-mixed-case-hosts", ""
 	case 25:
 		if len(vs.Http) > 0 && len(vs.Http[0].Match) > 0 {
 			vs.Http[0].Match[0].Headers = map[string]*networking.StringMatch{"x-nil": nil, "": {MatchType: &networking.StringMatch_Exact{Exact: ""}}}
@@ -242,7 +394,7 @@ func itoa(i int) string {
 }
 
 func (g *gen) mutDR(dr *networking.DestinationRule) (string, string) {
-	switch g.r.Intn(10) {
+	switch g.mutIdx(10) {
 	case 0:
 		dr.Host = ""
 		return "dr-empty-host", ""
@@ -284,7 +436,7 @@ func (g *gen) mutDR(dr *networking.DestinationRule) (string, string) {
 }
 
 func (g *gen) mutSE(se *networking.ServiceEntry) (string, string) {
-	switch g.r.Intn(16) {
+	switch g.mutIdx(16) {
 	case 0:
 		se.Hosts = nil
 		return "se-empty-hosts", ""
@@ -352,7 +504,7 @@ func (g *gen) mutSE(se *networking.ServiceEntry) (string, string) {
 }
 
 func (g *gen) mutGW(gw *networking.Gateway) (string, string) {
-	switch g.r.Intn(13) {
+	switch g.mutIdx(14) {
 	case 0:
 		gw.Servers = nil
 		return "gw-no-servers", ""
@@ -391,6 +543,23 @@ func (g *gen) mutGW(gw *networking.Gateway) (string, string) {
 	case 11:
 		gw.Selector = nil
 		return "gw-no-selector", ""
+	case 13:
+		// the same host in two letter cases in one HTTP server, and once more in a second server of the port
+		if len(gw.Servers[0].Hosts) > 0 {
+			h := gw.Servers[0].Hosts[0]
+			if strings.HasSuffix(h, "*") || len(h) < 4 {
+				h = "foo.com"
+			}
+			up := h[:len(h)-3] + strings.ToUpper(h[len(h)-3:])
+			gw.Servers[0].Hosts = []string{h, up}
+			c := proto.Clone(gw.Servers[0]).(*networking.Server)
+			c.Hosts = []string{strings.ToUpper(h[:1]) + h[1:]}
+			if c.Port != nil {
+				c.Port.Name += "-dup"
+			}
+			gw.Servers = append(gw.Servers, c)
+			return "gw-mixed-case-hosts", ""
+		}
 	case 12:
 		gw.Servers[0].Port.Protocol = "TLS"
 		gw.Servers[0].Tls = &networking.ServerTLSSettings{Mode: networking.ServerTLSSettings_TLSmode(99)}
@@ -400,7 +569,7 @@ func (g *gen) mutGW(gw *networking.Gateway) (string, string) {
 }
 
 func (g *gen) mutSC(sc *networking.Sidecar) (string, string) {
-	switch g.r.Intn(9) {
+	switch g.mutIdx(9) {
 	case 0:
 		sc.Egress = append(sc.Egress, &networking.IstioEgressListener{})
 		return "sc-egress-no-hosts", ""
@@ -437,7 +606,7 @@ func (g *gen) mutSC(sc *networking.Sidecar) (string, string) {
 }
 
 func (g *gen) mutEF(ef *networking.EnvoyFilter) (string, string) {
-	switch g.r.Intn(6) {
+	switch g.mutIdx(6) {
 	case 0:
 		ef.ConfigPatches = append(ef.ConfigPatches, nil)
 		return "ef-nil-patch", "ConfigPatches." + itoa(len(ef.ConfigPatches)-1)
